@@ -177,7 +177,9 @@ func (x *opFunction) Validate(rootValue cue.Value, cuePath CuePath, previousType
 	var k cue.Kind
 	k, _ = getUnderlyingKind(cuePathValue)
 
-	if fd.Returns.Type == PT_Any {
+	// Only a function that returns one element of its input (First, Last, Index) has the
+	// input's element type; AsArray and Select return arrays of something else.
+	if fd.Returns.Type == PT_Any && fd.Returns.IOType == IOOT_Single {
 		switch k {
 		// Primative Kinds:
 		case cue.BoolKind:
@@ -196,7 +198,7 @@ func (x *opFunction) Validate(rootValue cue.Value, cuePath CuePath, previousType
 	part.Type.CueExpr = fd.Returns.Type.CueExpr()
 	returnsKnownValues = fd.ReturnsKnownValues
 
-	if fd.ReturnsKnownValues && previousType.IOType == IOOT_Array && k == cue.StructKind {
+	if fd.ReturnsKnownValues && fd.Returns.IOType == IOOT_Single && previousType.IOType == IOOT_Array && k == cue.StructKind {
 		cuePathValue, _ = getUnderlyingValue(cuePathValue)
 
 		// We can find available fields
